@@ -89,33 +89,33 @@ Qed.
 
 Lemma scan_uniform : forall attrs r, ec_attr_scan attrs false = Some r -> ec_uniform attrs.
 Proof.
-  intros [|[first fv] rest] r Hs; cbn in Hs.
+  intros [|[first fv] rest] r Hs; unfold ec_attr_scan in Hs.
   - left. constructor.
   - destruct (is_ec_key first) eqn:Ef.
-    + cbn in Hs. destruct (existsb (fun a => negb (is_ec_key (fst a))) rest) eqn:Ee; [discriminate|].
+    + cbn [negb andb] in Hs. destruct (existsb (fun a => negb (is_ec_key (fst a))) rest) eqn:Ee; [discriminate|].
       left. constructor; [exact Ef|]. apply (existsb_negb_false_forall _ (fun a => is_ec_key (fst a))). exact Ee.
-    + destruct (find (fun a => is_ec_key (fst a)) rest) as [[k v]|] eqn:Efi; [cbn in Hs; discriminate|].
+    + destruct (find (fun a => is_ec_key (fst a)) rest) as [[k v]|] eqn:Efi; [cbn [negb] in Hs; discriminate|].
       right. constructor; [exact Ef|]. apply (find_none_forall _ (fun a => is_ec_key (fst a))). exact Efi.
 Qed.
 
 Lemma scan_none_no_ec : forall attrs, ec_attr_scan attrs false = Some None ->
   existsb (fun a => is_ec_key (fst a)) attrs = false.
 Proof.
-  intros [|[first fv] rest] Hs; cbn in Hs; [reflexivity|].
+  intros [|[first fv] rest] Hs; unfold ec_attr_scan in Hs; [reflexivity|].
   destruct (is_ec_key first) eqn:Ef.
-  - cbn in Hs. destruct (existsb (fun a => negb (is_ec_key (fst a))) rest); discriminate.
-  - destruct (find (fun a => is_ec_key (fst a)) rest) as [[k v]|] eqn:Efi; [cbn in Hs; discriminate|].
-    cbn. rewrite Ef. cbn. apply find_none_forall in Efi.
-    induction Efi as [|x l Hx _ IH]; cbn; [reflexivity|]. rewrite Hx. exact IH.
+  - cbn [negb andb] in Hs. destruct (existsb (fun a => negb (is_ec_key (fst a))) rest); discriminate.
+  - destruct (find (fun a => is_ec_key (fst a)) rest) as [[k v]|] eqn:Efi; [cbn [negb] in Hs; discriminate|].
+    cbn [existsb fst]. rewrite Ef. cbn [orb]. apply find_none_forall in Efi.
+    induction Efi as [|x l Hx _ IH]; cbn [existsb]; [reflexivity|]. rewrite Hx. exact IH.
 Qed.
 
 Lemma scan_some_has_ec : forall attrs k, ec_attr_scan attrs false = Some (Some k) ->
   existsb (fun a => is_ec_key (fst a)) attrs = true.
 Proof.
-  intros [|[first fv] rest] k Hs; cbn in Hs; [discriminate|].
+  intros [|[first fv] rest] k Hs; unfold ec_attr_scan in Hs; [discriminate|].
   destruct (is_ec_key first) eqn:Ef.
-  - cbn. rewrite Ef. reflexivity.
-  - destruct (find (fun a => is_ec_key (fst a)) rest) as [[k' v]|]; cbn in Hs; discriminate.
+  - cbn [existsb fst]. rewrite Ef. reflexivity.
+  - destruct (find (fun a => is_ec_key (fst a)) rest) as [[k' v]|]; cbn [negb] in Hs; discriminate.
 Qed.
 
 Lemma ver_eqb_eq : forall a b, ver_eqb a b = true -> a = b.
@@ -140,19 +140,15 @@ Proof.
   destruct (d + p <=? pi) eqn:El; [discriminate|].
   destruct ((o_size parent + d - 1) / d =? o_size o) eqn:Esz; [|discriminate].
   cbn in Hc. unfold check_ec_parent in Hc.
-  destruct (parent_hash_attr (o_attrs parent)) as [[hashes|]|]; try discriminate.
+  destruct (parent_hash_attr (o_attrs parent)) as [[hashes|]|] eqn:Eph; try discriminate.
   destruct hashes as [|h0 hs]; [discriminate|].
   destruct (o_cs o) as [[csty csv]|]; [|discriminate].
   destruct (blen (h0 :: hs) <? rules_offset rules ri pi + sum_len - 1); [discriminate|].
   exists parent, ri, pi, d, p, (h0 :: hs), csty, csv.
-  repeat split; try reflexivity.
-  - apply ver_eqb_eq. exact Ev.
-  - apply N.eqb_eq. exact Ec.
-  - apply bytes_eqb_eq. exact Eo.
-  - apply N.eqb_eq. exact Ee.
-  - apply N.leb_gt. exact El.
-  - apply N.eqb_eq. exact Esz.
-  - apply bytes_eqb_eq. exact Hc.
+  repeat split; try reflexivity; try assumption;
+    first [ apply ver_eqb_eq; exact Ev | apply N.eqb_eq; exact Ec | apply bytes_eqb_eq; exact Eo
+          | apply N.eqb_eq; exact Ee | apply N.leb_gt; exact El | apply N.eqb_eq; exact Esz
+          | apply bytes_eqb_eq; exact Hc ].
 Qed.
 
 (* the EC verdict of checkEC on a complete top-level object is the declarative one *)
@@ -166,17 +162,21 @@ Proof.
   destruct (ec_attr_scan (o_attrs o) false) as [eca|] eqn:Es; [|discriminate].
   pose proof (scan_uniform _ _ Es) as Hu.
   destruct (is_nil (e_rules e)) eqn:Er.
-  - destruct eca as [k|]; cbn in Hc; [discriminate|]. inversion Hc; subst b. cbn.
-    repeat split; try exact Hu; try discriminate. intros _. apply scan_none_no_ec. exact Es.
-  - cbn. destruct (o_type o) eqn:Et; cbn in *; try discriminate.
-    + (* regular *)
-      destruct eca as [k|]; cbn in Hc; [|discriminate].
-      destruct (check_ec_part o (e_rules e)) eqn:Ep; cbn in Hc; [|discriminate].
+  - destruct eca as [k|]; cbv beta iota delta [is_some] in Hc; [discriminate|]. inversion Hc; subst b.
+    cbn [negb andb].
+    split; [reflexivity|]. split; [exact Hu|]. split; [discriminate|]. intros _. apply scan_none_no_ec. exact Es.
+  - cbn [negb andb].
+    destruct (o_type o) eqn:Et; cbn [otype_eqb andb]; cbv beta iota in Hc; try discriminate.
+    + destruct eca as [k|]; cbv beta iota delta [is_some negb] in Hc; [|discriminate].
+      destruct (check_ec_part o (e_rules e)) eqn:Ep; cbv beta iota in Hc; [|discriminate].
       inversion Hc; subst b. rewrite (scan_some_has_ec _ _ Es).
-      repeat split; try exact Hu; try discriminate. intros _. apply check_ec_part_sound. exact Ep.
-    + destruct eca; cbn in Hc; [discriminate|]. inversion Hc. repeat split; try exact Hu; discriminate.
-    + destruct eca; cbn in Hc; [discriminate|]. inversion Hc. repeat split; try exact Hu; discriminate.
-    + destruct eca; cbn in Hc; [discriminate|]. inversion Hc. repeat split; try exact Hu; discriminate.
+      split; [reflexivity|]. split; [exact Hu|]. split; [intros _; apply check_ec_part_sound; exact Ep | discriminate].
+    + destruct eca; cbv beta iota delta [is_some] in Hc; [discriminate|]. inversion Hc.
+      split; [reflexivity|]. split; [exact Hu|]. split; discriminate.
+    + destruct eca; cbv beta iota delta [is_some] in Hc; [discriminate|]. inversion Hc.
+      split; [reflexivity|]. split; [exact Hu|]. split; discriminate.
+    + destruct eca; cbv beta iota delta [is_some] in Hc; [discriminate|]. inversion Hc.
+      split; [reflexivity|]. split; [exact Hu|]. split; discriminate.
 Qed.
 
 (* ---- validate --------------------------------------------------------------------------- *)
@@ -301,16 +301,391 @@ Section Crypto.
         destruct (Nat.eqb nest max_nesting); [discriminate|]. split; [reflexivity|exact Hv].
   Qed.
 
+  Lemma chain_ok_eq : forall e a o,
+    chain_ok e a o = (header_ok e a o /\ match o_parent o with None => True | Some p => chain_ok e a p end).
+  Proof. intros e a o. destruct o. reflexivity. Qed.
+  Lemma depth_eq : forall o, depth o = match o_parent o with None => 0%nat | Some p => S (depth p) end.
+  Proof. intro o. destruct o. reflexivity. Qed.
+
   (* the whole parent chain, and its depth *)
   Lemma validate_chain : forall n e unp allow nest o,
-    (depth o <= n)%nat ->
+    (depth o <= n)%nat -> (nest <= max_nesting)%nat ->
     validate e unp allow nest o = true ->
     chain_ok e allow o /\ (nest + depth o <= max_nesting)%nat.
   Proof.
-    induction n as [|n IH]; intros e unp allow nest o Hd Hv;
-      destruct (validate_level _ _ _ _ _ Hv) as [Hh [is_ec [_ [_ Hp]]]].
-    - destruct o; cbn in *. destruct o_parent0 as [p|]; cbn in *; [lia|].
-      split; [split; [exact Hh|exact I]|].
-      assert (Hle : (nest <= max_nesting)%nat).
-      { clear -Hv. unfold max_nesting. (* nest is bounded only through parents; a leaf can sit at any level reached *)
-        destruct (Nat.leb nest 2) eqn:E; [apply Nat.leb_le; exact E|]. apply Nat.leb_gt in E. Fail lia. Abort.
+    induction n as [|n IH]; intros e unp allow nest o Hd Hn Hv;
+      destruct (validate_level _ _ _ _ _ Hv) as [Hh [is_ec [_ [_ Hp]]]];
+      rewrite chain_ok_eq; rewrite depth_eq in *; destruct (o_parent o) as [p|].
+    - lia.
+    - split; [split; [exact Hh|exact I] | lia].
+    - destruct Hp as [Hne Hvp]. apply Nat.eqb_neq in Hne.
+      assert (Hd' : (depth p <= n)%nat) by lia.
+      assert (Hn' : (S nest <= max_nesting)%nat) by lia.
+      destruct (IH _ _ _ _ _ Hd' Hn' Hvp) as [Hc Hdep].
+      split; [split; [exact Hh|exact Hc] | lia].
+    - split; [split; [exact Hh|exact I] | lia].
+  Qed.
+
+  (* ---- authentication ----------------------------------------------------------------- *)
+  Lemma tok1_check_sound : forall o s, tok1_check tok1_ok o s = true ->
+    match o_tok1 o with
+    | None => True
+    | Some t => t1_authkey t = s_key s /\ tok1_ok t = true /\ (t1_issuer t = o_owner o \/ legacy o)
+    end.
+  Proof.
+    unfold tok1_check, legacy. intros o s Hc. destruct (o_tok1 o) as [t|]; [|exact I].
+    apply andb_true_iff in Hc. destruct Hc as [Hc H3]. apply andb_true_iff in Hc. destruct Hc as [H1 H2].
+    repeat split; [apply bytes_eqb_eq; exact H1 | exact H2 |].
+    destruct (bytes_eqb (t1_issuer t) (o_owner o)) eqn:Ei.
+    - left. apply bytes_eqb_eq. exact Ei.
+    - right. cbn in H3. destruct (owner_match_req (o_ver o)); [discriminate|reflexivity].
+  Qed.
+
+  Lemma tok2_check_sound : forall o s ecdsa, tok2_check user_of tok2_ok o s ecdsa = true ->
+    match o_tok2 o with
+    | None => True
+    | Some t => tok2_ok t = true /\ t2_issuer t = o_owner o /\
+                (ecdsa = true -> In (user_of (s_key s)) (t2_subjects t))
+    end.
+  Proof.
+    unfold tok2_check. intros o s ecdsa Hc. destruct (o_tok2 o) as [t|]; [|exact I].
+    apply andb_true_iff in Hc. destruct Hc as [Hc H3]. apply andb_true_iff in Hc. destruct Hc as [H1 H2].
+    repeat split; [exact H2 | apply bytes_eqb_eq; exact H3 |].
+    intro He. subst ecdsa. apply mem_key_in. exact H1.
+  Qed.
+
+  Lemma authenticate_sound : forall o, authenticate o = true -> auth_ok o.
+  Proof.
+    unfold Model.authenticate, Spec.auth_ok. intros o Ha.
+    destruct (o_sig o) as [s|]; [|discriminate]. exists s. split; [reflexivity|].
+    destruct (max_script_len <? s_keylen s); [discriminate|].
+    destruct (max_script_len <? s_vallen s); [discriminate|].
+    cbv zeta in Ha.
+    destruct (s_scheme s <? 3) eqn:Ee; cbn [negb andb] in Ha.
+    - destruct (key_ok (s_key s)) eqn:Ek; cbn [negb] in Ha; [|discriminate].
+      destruct (tok1_check tok1_ok o s) eqn:E1; cbn [negb] in Ha; [|discriminate].
+      destruct (tok2_check user_of tok2_ok o s true) eqn:E2; cbn [negb] in Ha; [|discriminate].
+      destruct (sig_ok (s_scheme s) (s_key s) (s_val s) (id_bytes o)) eqn:Es; cbn [negb] in Ha; [|discriminate].
+      split; [apply tok1_check_sound; exact E1|].
+      split.
+      { pose proof (tok2_check_sound _ _ _ E2) as Ht. destruct (o_tok2 o); [|exact I].
+        destruct Ht as [A [B C]]. repeat split; try assumption. intros _. apply C. reflexivity. }
+      left. apply N.ltb_lt in Ee. repeat split; try assumption.
+      intros Hn1 Hn2. rewrite Hn1, Hn2 in Ha. cbn in Ha.
+      destruct (bytes_eqb (user_of (s_key s)) (o_owner o)) eqn:Eu.
+      + left. apply bytes_eqb_eq. exact Eu.
+      + right. unfold legacy. cbn in Ha. destruct (owner_match_req (o_ver o)); [discriminate|reflexivity].
+    - destruct (s_scheme s =? 3) eqn:E3; cbn [negb] in Ha; [|discriminate].
+      destruct (o_tok1 o) eqn:Et1; cbn [is_some] in Ha; [discriminate|].
+      destruct (tok1_check tok1_ok o s) eqn:E1; cbn [negb] in Ha; [|discriminate].
+      destruct (tok2_check user_of tok2_ok o s false) eqn:E2; cbn [negb] in Ha; [|discriminate].
+      split; [exact I|].
+      split.
+      { pose proof (tok2_check_sound _ _ _ E2) as Ht. destruct (o_tok2 o); [|exact I].
+        destruct Ht as [A [B C]]. repeat split; try assumption. apply N.eqb_eq in E3. intro Hlt. lia. }
+      right. apply N.eqb_eq in E3. repeat split; assumption.
+  Qed.
+
+  (* ---- top-level validation of a complete object --------------------------------------- *)
+  Lemma validate_top : forall e allow o,
+    validate e false allow 0 o = true ->
+    id_ok H o = true /\ format_ok e allow o /\ (is_ec_obj e o = false -> auth_ok o).
+  Proof.
+    intros e allow o Hv.
+    destruct (validate_level _ _ _ _ _ Hv) as [_ [is_ec [Hec [Hid _]]]].
+    destruct (Hid eq_refl) as [Hi Hau].
+    destruct (validate_chain (depth o) _ _ _ _ _ (Nat.le_refl _) (Nat.le_0_l _) Hv) as [Hc Hd].
+    cbn [Nat.ltb Nat.leb] in Hec.
+    destruct (check_ec_top _ _ _ Hec) as [Hb [Hu [Hpart Hnil]]].
+    split; [exact Hi|]. split.
+    - unfold format_ok. split; [exact Hc|]. split; [exact Hd|]. split; [exact Hu|]. split; [|exact Hnil].
+      intro Hie. apply Hpart. congruence.
+    - intro Hne. apply authenticate_sound. apply Hau. congruence.
+  Qed.
+
+  Lemma id_ok_spec : forall o, id_ok H o = true -> o_id o = Some (H (o_hdrbin o)).
+  Proof.
+    unfold id_ok. intros o Hi. destruct (o_id o) as [i|]; [|discriminate].
+    apply bytes_eqb_eq in Hi. congruence.
+  Qed.
+
+  (* ---- the validating target ------------------------------------------------------------ *)
+  Lemma write_chunks_inv : forall e ecp o cs st i st',
+    write_chunks e ecp o st i cs = inr st' ->
+    ts_next st' = ts_next st ++ concat cs /\
+    ts_written st' = ts_written st + blen (concat cs) /\
+    ts_h st' = fold_left upd cs (ts_h st).
+  Proof.
+    induction cs as [|p r IH]; intros st i st' Hw; cbn in Hw.
+    - inversion Hw; subst st'. cbn. rewrite app_nil_r. unfold blen. cbn. repeat split. lia.
+    - unfold Model.write_chunk in Hw.
+      destruct (o_size o <? ts_written st + blen p); [discriminate|].
+      destruct (negb (quota_ok e ecp false (ts_written st + blen p))); [discriminate|].
+      cbn in Hw. destruct (IH _ _ _ Hw) as [H1 [H2 H3]]. cbn [ts_next ts_written ts_h] in *.
+      cbn [concat fold_left]. rewrite H1, H2, H3. rewrite <- app_assoc. unfold blen. rewrite app_length.
+      repeat split. lia.
+  Qed.
+
+  Definition hdr_state (o : obj) : tstate hstate := mkts hstate (blen (o_payload o)) h0 [].
+
+  Lemma write_header_some : forall e ecp o st, write_header e ecp o = Some st ->
+    st = hdr_state o /\ validate e false false 0 o = true /\ (exists v, o_cs o = Some (cs_sha256, v)) /\
+    o_size o <= e_max e.
+  Proof.
+    unfold Model.write_header, hdr_state. intros e ecp o st Hw.
+    destruct (o_size o <? blen (o_payload o)); [discriminate|].
+    destruct (e_max e <? o_size o) eqn:Em; [discriminate|].
+    destruct (o_cs o) as [[ty v]|]; [|discriminate].
+    destruct (ty =? cs_sha256) eqn:Et; cbn [negb] in Hw; [|discriminate].
+    destruct (validate e false false 0 o) eqn:Ev; cbn [negb] in Hw; [|discriminate].
+    destruct (quota_ok e ecp false (o_size o)); cbn [negb] in Hw; [|discriminate].
+    inversion Hw. apply N.eqb_eq in Et. subst ty. repeat split; [exists v; reflexivity | apply N.ltb_ge; exact Em].
+  Qed.
+
+  (* C24, PUT path: whatever the pipeline stores is the submitted object with the streamed
+     payload, and it is self-consistent, well-formed and authenticated *)
+  Theorem put_stored_valid : forall e o chunks fail o' pl,
+    o_payload o = [] ->
+    run_put e o chunks fail = (OOk, Some (o', pl)) ->
+    o' = o /\ pl = concat chunks /\ stored_ok e false o pl.
+  Proof.
+    unfold Model.run_put. intros e o chunks fail o' pl Hnp Hr.
+    destruct (init_target e o) as [|ecp|]; try discriminate.
+    destruct (write_header e ecp o) as [st|] eqn:Eh; [|discriminate].
+    destruct (write_chunks e ecp o st 0 chunks) as [i|st'] eqn:Ew; [discriminate|].
+    destruct (close_target e o st' fail) as [[o2 p2]|] eqn:Ec; [|discriminate].
+    inversion Hr; subst o2 p2. clear Hr.
+    destruct (write_header_some _ _ _ _ Eh) as [Hst [Hv [[v Hcs] _]]]. subst st.
+    destruct (write_chunks_inv _ _ _ _ _ _ _ Ew) as [Hn [Hw Hh]].
+    unfold hdr_state in *. cbn [ts_next ts_written ts_h] in *. rewrite Hnp in Hw. cbn in Hw.
+    unfold Model.close_target in Ec.
+    destruct (o_size o =? ts_written st') eqn:Esz; cbn [negb] in Ec; [|discriminate].
+    destruct (bytes_eqb (fin (ts_h st')) (cs_value o)) eqn:Ecs; cbn [negb] in Ec; [|discriminate].
+    unfold dist_close in Ec.
+    destruct (validate_content e o (ts_next st')); cbn [negb] in Ec; [|discriminate].
+    destruct fail; [discriminate|]. inversion Ec; subst o' pl. clear Ec.
+    cbn in Hn. split; [reflexivity|]. split; [exact Hn|].
+    destruct (validate_top _ _ _ Hv) as [Hid [Hf Ha]].
+    unfold Spec.stored_ok. rewrite Hn.
+    split; [apply id_ok_spec; exact Hid|].
+    split; [apply N.eqb_eq in Esz; rewrite Esz, Hw; reflexivity|].
+    split.
+    - exists cs_sha256. apply bytes_eqb_eq in Ecs. rewrite Hh, Hstream in Ecs.
+      unfold cs_value in Ecs. rewrite Hcs in Ecs. rewrite Hcs. congruence.
+    - split; assumption.
+  Qed.
+
+  (* C24, replicate path *)
+  Theorem repl_stored_valid : forall e o fail o' pl,
+    run_repl e o fail = Some (o', pl) ->
+    o' = o /\ pl = o_payload o /\ stored_ok e true o pl.
+  Proof.
+    unfold Model.run_repl. intros e o fail o' pl Hr.
+    destruct (o_cnr o =? 0); [discriminate|].
+    destruct (o_cs o) as [[ty csv]|] eqn:Hcs; [|discriminate].
+    destruct (ty =? cs_sha256); cbn [negb] in Hr; [|discriminate].
+    destruct (e_max e =? 0); [discriminate|].
+    destruct (o_size o =? blen (o_payload o)) eqn:Esz; cbn [negb] in Hr; [|discriminate].
+    destruct (e_max e <? o_size o); [discriminate|].
+    destruct (validate e false true 0 o) eqn:Hv; cbn [negb] in Hr; [|discriminate].
+    destruct (validate_content e o (o_payload o)); cbn [negb] in Hr; [|discriminate].
+    destruct (bytes_eqb (H (o_payload o)) csv) eqn:Ecs; cbn [negb] in Hr; [|discriminate].
+    destruct fail; [discriminate|]. inversion Hr; subst o' pl.
+    split; [reflexivity|]. split; [reflexivity|].
+    destruct (validate_top _ _ _ Hv) as [Hid [Hf Ha]].
+    unfold Spec.stored_ok. split; [apply id_ok_spec; exact Hid|].
+    split; [apply N.eqb_eq; exact Esz|].
+    split; [exists ty; apply bytes_eqb_eq in Ecs; congruence|].
+    split; assumption.
+  Qed.
+
+  (* client PUT: the version gate makes the owner exemption unreachable *)
+  Theorem put_strict_auth : forall e o chunks fail o' pl,
+    o_payload o = [] ->
+    run_put e o chunks fail = (OOk, Some (o', pl)) ->
+    is_ec_obj e o = false ->
+    auth_ok o /\ ~ legacy o.
+  Proof.
+    intros e o chunks fail o' pl Hnp Hr Hne.
+    destruct (put_stored_valid _ _ _ _ _ _ Hnp Hr) as [_ [_ [_ [_ [_ [Hf Ha]]]]]].
+    split; [apply Ha; exact Hne|].
+    destruct Hf as [Hc _]. rewrite chain_ok_eq in Hc. destruct Hc as [[[Hl|Hl] _] _]; [discriminate|].
+    unfold legacy, valid_new_object in *. congruence.
+  Qed.
+
+  (* ---- chunking ------------------------------------------------------------------------ *)
+  (* acceptance of a chunk list only depends on the concatenation *)
+  Definition fits (e : env) (ecp : bool) (o : obj) (total : N) : bool :=
+    (total <=? o_size o) && quota_ok e ecp false total.
+
+  Lemma quota_mono : forall e ecp a b, a <= b -> quota_ok e ecp false b = true -> quota_ok e ecp false a = true.
+  Proof.
+    unfold quota_ok. intros e ecp a b Hab Hq. destruct (e_quota e) as [hard|]; [|reflexivity].
+    apply N.leb_le in Hq. apply N.leb_le. destruct ecp; [lia|].
+    rewrite N.add_0_r in *. nia.
+  Qed.
+
+  Lemma write_chunks_ok_iff : forall e ecp o cs st i,
+    quota_ok e ecp false (ts_written st) = true \/ True ->
+    (exists st', write_chunks e ecp o st i cs = inr st') <->
+    (forall pre p post, cs = pre ++ p :: post ->
+       fits e ecp o (ts_written st + blen (concat pre) + blen p) = true).
+  Proof.
+    induction cs as [|p r IH]; intros st i _; cbn.
+    - split; [intros _ pre p post Hh; destruct pre; discriminate | intros _; eexists; reflexivity].
+    - unfold Model.write_chunk, fits. split.
+      + intros [st' Hw].
+        destruct (o_size o <? ts_written st + blen p) eqn:Eo; [discriminate|].
+        destruct (quota_ok e ecp false (ts_written st + blen p)) eqn:Eq; cbn [negb] in Hw; [|discriminate].
+        intros pre q post Hh. destruct pre as [|x pre]; cbn in Hh; inversion Hh; subst.
+        * cbn. unfold blen at 1. cbn. rewrite N.add_0_r. apply andb_true_iff. split; [apply N.leb_le; apply N.ltb_ge in Eo; exact Eo | exact Eq].
+        * pose proof (proj1 (IH _ (S i) (or_intror I)) (ex_intro _ st' Hw) pre q post eq_refl) as Hf.
+          cbn [ts_written] in Hf. cbn [concat]. unfold blen in *. rewrite app_length.
+          replace (ts_written st + N.of_nat (length x + length (concat pre)) + N.of_nat (length q))
+            with (ts_written st + N.of_nat (length x) + N.of_nat (length (concat pre)) + N.of_nat (length q)) by lia.
+          exact Hf.
+      + intros Hall.
+        pose proof (Hall [] p r eq_refl) as H0. cbn in H0. unfold blen at 1 in H0. cbn in H0. rewrite N.add_0_r in H0.
+        apply andb_true_iff in H0. destruct H0 as [Ha Hb]. apply N.leb_le in Ha.
+        destruct (o_size o <? ts_written st + blen p) eqn:Eo; [apply N.ltb_lt in Eo; lia|].
+        rewrite Hb. cbn [negb]. apply (IH _ (S i) (or_intror I)).
+        intros pre q post Hh. cbn [ts_written].
+        pose proof (Hall (p :: pre) q post) as Hf. cbn [app concat] in Hf. rewrite Hh in Hf. specialize (Hf eq_refl).
+        unfold blen in *. rewrite app_length in Hf.
+        replace (ts_written st + N.of_nat (length p) + N.of_nat (length (concat pre)) + N.of_nat (length q))
+          with (ts_written st + N.of_nat (length p + length (concat pre)) + N.of_nat (length q)) by lia.
+        exact Hf.
+  Qed.
+
+  Lemma blen_app : forall a b, blen (a ++ b) = blen a + blen b.
+  Proof. intros. unfold blen. rewrite app_length. lia. Qed.
+
+  Lemma concat_split_len : forall cs pre p post, cs = pre ++ p :: post ->
+    blen (concat pre) + blen p <= blen (concat cs).
+  Proof.
+    intros cs pre p post Hh. subst cs. rewrite concat_app. cbn [concat]. rewrite !blen_app. lia.
+  Qed.
+
+  (* all chunks are accepted iff the total fits (size and quota): nothing else matters *)
+  Lemma write_chunks_total : forall e ecp o cs st,
+    quota_ok e ecp false (ts_written st) = true ->
+    ((exists st', write_chunks e ecp o st 0 cs = inr st') <->
+     fits e ecp o (ts_written st + blen (concat cs)) = true \/ (cs = [] )) .
+  Proof.
+    intros e ecp o cs st Hq0. rewrite (write_chunks_ok_iff e ecp o cs st 0 (or_intror I)). split.
+    - intro Hall. destruct cs as [|c cs']; [right; reflexivity|]. left.
+      destruct (exists_last (l := c :: cs') ltac:(discriminate)) as [pre [p Hh]].
+      pose proof (Hall pre p [] Hh) as Hf. rewrite Hh. rewrite concat_app. cbn [concat]. rewrite app_nil_r.
+      rewrite blen_app. rewrite N.add_assoc. exact Hf.
+    - intros [Hf|Hnil] pre p post Hh.
+      + unfold fits in *. apply andb_true_iff in Hf. destruct Hf as [Ha Hb]. apply N.leb_le in Ha.
+        pose proof (concat_split_len _ _ _ _ Hh) as Hl.
+        apply andb_true_iff. split; [apply N.leb_le; lia|].
+        apply (quota_mono e ecp _ (ts_written st + blen (concat cs))); [lia | exact Hb].
+      + subst cs. destruct pre; discriminate.
+  Qed.
+
+  Lemma fold_upd_concat : forall c1 c2, concat c1 = concat c2 ->
+    fin (fold_left upd c1 h0) = fin (fold_left upd c2 h0).
+  Proof. intros c1 c2 Hc. rewrite !Hstream. congruence. Qed.
+
+  Definition put_result_of (r : outcome * option (obj * bytes)) : option (obj * bytes) := snd r.
+
+  (* C24: two chunkings of the same payload get the same verdict and store the same thing *)
+  Theorem chunking_irrelevant : forall e o c1 c2 fail,
+    o_payload o = [] ->
+    concat c1 = concat c2 ->
+    accepted (run_put e o c1 fail) = accepted (run_put e o c2 fail) /\
+    snd (run_put e o c1 fail) = snd (run_put e o c2 fail).
+  Proof.
+    intros e o c1 c2 fail Hnp Hcc. unfold Model.run_put, accepted.
+    destruct (init_target e o) as [|ecp|]; try (split; reflexivity).
+    destruct (write_header e ecp o) as [st|] eqn:Eh; [|split; reflexivity].
+    destruct (write_header_some _ _ _ _ Eh) as [Hst [Hv [[v Hcs] Hmx]]]. subst st.
+    assert (Hq0 : quota_ok e ecp false (ts_written (hdr_state o)) = true).
+    { unfold hdr_state. cbn. rewrite Hnp. unfold quota_ok. destruct (e_quota e); [|reflexivity].
+      destruct ecp; cbn; apply N.leb_le; lia. }
+    pose proof (write_chunks_total e ecp o c1 _ Hq0) as T1.
+    pose proof (write_chunks_total e ecp o c2 _ Hq0) as T2.
+    destruct (write_chunks e ecp o (hdr_state o) 0 c1) as [i1|s1] eqn:E1;
+      destruct (write_chunks e ecp o (hdr_state o) 0 c2) as [i2|s2] eqn:E2; cbn [fst snd].
+    - split; reflexivity.
+    - (* c2 accepted, c1 not: impossible unless c2 = [] and then c1 has only empty chunks *)
+      exfalso.
+      assert (X2 : exists st', inr s2 = inr st') by (eexists; reflexivity).
+      assert (N1 : ~ exists st', @inl nat (tstate hstate) i1 = inr st') by (intros [x Hx]; discriminate).
+      apply T2 in X2. apply N1. apply T1.
+      destruct X2 as [Hf|Hn].
+      + left. rewrite Hcc. exact Hf.
+      + subst c2. cbn in Hcc. left. rewrite Hcc. unfold fits. unfold blen. cbn. rewrite N.add_0_r.
+        apply andb_true_iff. split; [|exact Hq0]. unfold hdr_state. cbn. rewrite Hnp. cbn. apply N.leb_le. lia.
+    - exfalso.
+      assert (X1 : exists st', inr s1 = inr st') by (eexists; reflexivity).
+      assert (N2 : ~ exists st', @inl nat (tstate hstate) i2 = inr st') by (intros [x Hx]; discriminate).
+      apply T1 in X1. apply N2. apply T2.
+      destruct X1 as [Hf|Hn].
+      + left. rewrite <- Hcc. exact Hf.
+      + subst c1. cbn in Hcc. left. rewrite <- Hcc. unfold fits. unfold blen. cbn. rewrite N.add_0_r.
+        apply andb_true_iff. split; [|exact Hq0]. unfold hdr_state. cbn. rewrite Hnp. cbn. apply N.leb_le. lia.
+    - destruct (write_chunks_inv _ _ _ _ _ _ _ E1) as [A1 [B1 C1]].
+      destruct (write_chunks_inv _ _ _ _ _ _ _ E2) as [A2 [B2 C2]].
+      assert (Hsame : close_target e o s1 fail = close_target e o s2 fail).
+      { unfold Model.close_target. rewrite B1, B2, C1, C2, A1, A2, Hcc.
+        unfold hdr_state. cbn [ts_h]. rewrite (fold_upd_concat c1 c2 Hcc). reflexivity. }
+      rewrite Hsame. destruct (close_target e o s2 fail); split; reflexivity.
+  Qed.
+
+  (* C24: the first chunk that makes the stream longer than declared is the one refused
+     (or an earlier one, if the quota runs out first); nothing is stored *)
+  Theorem overflow_rejected : forall e o ecp st pre p post fail,
+    init_target e o = KUntrusted ecp ->
+    write_header e ecp o = Some st ->
+    ts_written st + blen (concat pre) <= o_size o ->
+    o_size o < ts_written st + blen (concat pre) + blen p ->
+    exists j, (j <= length pre)%nat /\
+      run_put e o (pre ++ p :: post) fail = (OChunkErr j, None) /\
+      (e_quota e = None -> j = length pre).
+  Proof.
+    intros e o ecp st pre p post fail Hi Hh Hle Hlt. unfold Model.run_put. rewrite Hi, Hh.
+    clear Hi Hh.
+    assert (G : forall pre st i, ts_written st + blen (concat pre) <= o_size o ->
+               o_size o < ts_written st + blen (concat pre) + blen p ->
+               exists j, (i <= j <= i + length pre)%nat /\
+                 write_chunks e ecp o st i (pre ++ p :: post) = inl j /\
+                 (e_quota e = None -> j = (i + length pre)%nat)).
+    { clear. induction pre as [|x pre IH]; intros st i Hle Hlt; cbn [app write_chunks].
+      - cbn in Hle, Hlt. unfold blen in Hle, Hlt. cbn in Hle, Hlt. rewrite N.add_0_r in *.
+        unfold Model.write_chunk. destruct (o_size o <? ts_written st + blen p) eqn:E; [|apply N.ltb_ge in E; unfold blen in E; lia].
+        exists i. cbn. repeat split; try lia. reflexivity.
+      - cbn [concat] in Hle, Hlt. rewrite blen_app in Hle, Hlt.
+        unfold Model.write_chunk at 1.
+        destruct (o_size o <? ts_written st + blen x) eqn:E; [apply N.ltb_lt in E; lia|].
+        destruct (quota_ok e ecp false (ts_written st + blen x)) eqn:Eq; cbn [negb].
+        + destruct (IH (mkts hstate (ts_written st + blen x) (upd (ts_h st) x) (ts_next st ++ x)) (S i)) as [j [Hj [Hw Hq]]];
+            cbn [ts_written]; try lia.
+          exists j. cbn [length]. repeat split; try lia; [exact Hw | intro Hn; rewrite (Hq Hn); lia].
+        + exists i. cbn [length]. repeat split; try lia.
+          intro Hn. unfold quota_ok in Eq. rewrite Hn in Eq. discriminate. }
+    destruct (G pre st 0%nat Hle Hlt) as [j [Hj [Hw Hq]]]. exists j. rewrite Hw. cbn in *.
+    repeat split; try lia. exact Hq.
+  Qed.
+
+  (* a stream shorter than declared is refused at Close; nothing is stored *)
+  Theorem short_rejected : forall e o chunks fail,
+    o_payload o = [] ->
+    blen (concat chunks) < o_size o ->
+    snd (run_put e o chunks fail) = None /\ accepted (run_put e o chunks fail) = false.
+  Proof.
+    intros e o chunks fail Hnp Hlt. unfold Model.run_put, accepted.
+    destruct (init_target e o) as [|ecp|]; try (split; reflexivity).
+    destruct (write_header e ecp o) as [st|] eqn:Eh; [|split; reflexivity].
+    destruct (write_header_some _ _ _ _ Eh) as [Hst _]. subst st.
+    destruct (write_chunks e ecp o (hdr_state o) 0 chunks) as [i|st'] eqn:Ew; [split; reflexivity|].
+    destruct (write_chunks_inv _ _ _ _ _ _ _ Ew) as [_ [Hw _]].
+    unfold hdr_state in Hw. cbn in Hw. rewrite Hnp in Hw. cbn in Hw.
+    unfold Model.close_target.
+    destruct (o_size o =? ts_written st') eqn:E; [apply N.eqb_eq in E; lia|].
+    cbn. split; reflexivity.
+  Qed.
+
+End Crypto.
